@@ -437,6 +437,31 @@ def main(argv):
                     sent = b"".join(d for cn in world.conns for _, d in cn.sent)
                     if pfx and any((b" " + k.encode() + b"\r\n") in sent or (b" " + k.encode() + b" ") in sent for k in ks if isinstance(k, str) and len(k) > 1):
                         ctx.violation("an un-prefixed key appeared on the wire", dict(case, sent=hx(sent[:100])), tags=tags)
+    # 4b. keys made of unusual bytes: every byte value a key may contain (all but NUL and the six white-space bytes) inside a key, and text whose UTF-8 form has
+    #     bytes that *text* functions treat as separators (a0, 85, 1c-1f) or that has more than one Unicode spelling - every key keeps its own value, alone and
+    #     next to its neighbours, through every fetch operation
+    odd_bytes = [b"k" + bytes([b_]) + b"y" for b_ in range(1, 256) if b_ not in (0x20, 0x09, 0x0a, 0x0b, 0x0c, 0x0d)]
+    odd_text = ["voil\u00e0", "\u0105", "a\u00a0b", "a\u0085b", "a\u2028b", "a\u3000b", "caf\u00e9", "cafe\u0301", "A\u030a", "\u00c5", "\u212b", "\u1100\u1161", "\uac00", "unit\x1fsep", "fs\x1cx"]
+    for au_, corpus in ((False, odd_bytes[:125]), (False, odd_bytes[125:]), (True, odd_text), (True, [k_.decode("latin-1").encode("utf8") for k_ in odd_bytes[120:]][:60])):
+        for pfx in (b"", b"pre:"):
+            srv, world, c = mk(pfx=pfx, au=au_, enc="utf8")
+            vals_ = {k_: b"own-" + str(i_).encode() for i_, k_ in enumerate(corpus)}
+            ctx.case(("odd-keys", au_, pfx, len(corpus), repr(corpus[0])))
+            ctx.count("keys of unusual bytes (batches)")
+            case = {"allow_unicode_keys": au_, "prefix": hx(pfx), "keys": len(corpus), "first_key": repr(corpus[0])}
+            try:
+                for k_, v_ in vals_.items():
+                    c.set(k_, v_, noreply=False)
+                single = {k_: (c.get(k_), c.gets(k_)[0]) for k_ in corpus}
+                many, many_cas = c.get_many(list(corpus)), c.gets_many(list(corpus))
+            except Exception as e:
+                ctx.violation("store or fetch raised for legal keys made of unusual bytes", dict(case, error=repr(e)[:100]), tags=["odd-keys"])
+                continue
+            bad_ = [k_ for k_ in corpus if single[k_] != (vals_[k_], vals_[k_]) or many.get(k_) != vals_[k_] or many_cas.get(k_, (None,))[0] != vals_[k_]]
+            if bad_ or len(many) != len(corpus) or len(many_cas) != len(corpus):
+                k_ = bad_[0] if bad_ else None
+                ctx.violation("a key made of unusual bytes did not come back with its own value under the caller's key",
+                              dict(case, key=repr(k_), stored=repr(vals_.get(k_)), get_gets=repr(single.get(k_)), get_many=repr(many.get(k_)), n_get_many=len(many)), tags=["odd-keys"])
     # 5. the prefix is a faithful namespace even for keys that themselves start with the prefix bytes
     for pfx in (b"user:", b"p", b"ns:"):
         for k in (b"42", "42", b"x"):
